@@ -6,6 +6,8 @@ from pyvc import assumed
 from pyvc import lists as L
 from pyvc.contracts import Bool, Enum, Inst, OneOfEnums, Opt, Raw, SeqOf, Str, contract
 from pyvc.values import CoroV, ListObj, Opaque, Ref, Sc, SV
+from pyvc.values import mk_s as mk_s_
+from specs.ghost import abstract_value
 
 A = "ahbicht.expressions.ahb_expression_evaluation:"
 AT = A + "AhbExpressionTransformer."
@@ -31,6 +33,34 @@ def _part(ex, st, name, i):
     return ahb_result().make(ex, st, name)
 
 
+def _part_coro(ex, st, name, i):
+    """the i-th element of the list handed to _ahb_expression_async: an AWAITABLE that yields the part's result or
+    raises InvalidExpressionError (iff part_invalid(i)) / an evaluator's exception"""
+    res = ahb_result().make(ex, st, name + ".result")
+    return CoroV(Opaque("part-coro", {"result": res, "idx": SV(Sc.i(i), "int")}), [], {})
+
+
+def _part_run(ex, st, args, kwargs, fn):
+    from pyvc import ghosts
+    (_, inv), = ghosts.abstract_value(ex, st, [SV(mk_s_("part_invalid"), "str"), fn.data["idx"]], {}, None)
+    outs = []
+    for s, bad in ex.branch(st, Sc.is_b(inv.t) & Sc.bv(inv.t)):
+        if bad:
+            outs.append(ex.raise_(s, "InvalidExpressionError", None, error_message=ex.fresh_sv("reason", "str")))
+        else:
+            outs.append(ex.raise_(s.fork(), "Exception", None))
+            outs.append((s, fn.data["result"]))
+    return outs
+
+
+assumed.LIBRARY["part-coro()"] = _part_run
+
+
+def part_invalid(i):
+    """ghost: evaluating the i-th part raises the invalid-expression error"""
+    return abstract_value("part_invalid", i) is True
+
+
 @contract("ahbicht.utility_functions:gather_if_necessary", prop=["C09", "C12"])
 class GatherIfNecessary:
     """modular view: the list of the (awaited or plain) items in the order of the input"""
@@ -38,14 +68,28 @@ class GatherIfNecessary:
     raises = {"Exception": None, "InvalidExpressionError": None, "NotImplementedError": None}
 
     def hook(ex, st, bound):
+        """modular view: ALL awaitables of the list are awaited (an exception of any of them propagates); plain items
+        are passed through; positions are kept"""
+        lt = ex.as_lt(st, bound["results_and_awaitable_results"])
+        if not any(isinstance(x, CoroV) for seg in lt.segs for x in _units(seg)):
+            outs = [ex.raise_(st.fork(), k, None) for k in ("Exception", "InvalidExpressionError", "NotImplementedError")]
+            outs.append((st, bound["results_and_awaitable_results"]))
+            return outs
         outs = []
-        for k in ("Exception", "InvalidExpressionError", "NotImplementedError"):
-            outs.append(ex.raise_(st.fork(), k, None))
-        outs.append((st, bound["results_and_awaitable_results"]))
+        for s, r in ex.force_lt(st, lt):
+            outs.append((s, r) if not isinstance(r, L.LT) else (s, ex.alloc(s, ListObj(r))))
         return outs
 
     def post_same_items_same_order(results_and_awaitable_results, result):
         return result == results_and_awaitable_results
+
+
+def _units(seg):
+    if isinstance(seg, L.Unit):
+        return [seg.v]
+    if isinstance(seg, L.MapSeg):
+        return [u.v for u in seg.body.segs if isinstance(u, L.Unit)]
+    return []
 
 
 def fulfilled(p):
@@ -56,8 +100,21 @@ def fulfilled(p):
 class AhbExpressionAsync:
     """returns the FIRST part whose requirement constraints are fulfilled (True; None and False are skipped),
     otherwise the LAST part; marks the selected fulfilled part conditional iff there is more than one part"""
-    params = dict(self=SELF, list_of_single_requirement_indicator_expressions=SeqOf(_part, min_len=1))
-    raises = {"Exception": None, "InvalidExpressionError": None, "NotImplementedError": None}
+    cases = [dict(self=SELF, list_of_single_requirement_indicator_expressions=SeqOf(_part, min_len=1)),
+             dict(self=SELF, list_of_single_requirement_indicator_expressions=SeqOf(_part_coro, min_len=1))]
+    raises = {"Exception": None, "InvalidExpressionError": "onlyif_parts_are_awaitables", "NotImplementedError": None}
+    clause_props = {"post_every_part_is_evaluated": ["C09", "C06", "C16"]}
+    case_posts = {0: ["post_first_fulfilled_else_last", "post_indicator_and_results_are_the_parts_own",
+                      "post_conditional_if_several_parts"], 1: ["post_every_part_is_evaluated"]}
+
+    def onlyif_parts_are_awaitables(self, list_of_single_requirement_indicator_expressions):
+        return True
+
+    def post_every_part_is_evaluated(self, list_of_single_requirement_indicator_expressions, result):
+        """C06/C16: EVERY part is evaluated, whatever the outcome of earlier parts - a normal return means no part
+        is invalid (validity must not depend on condition states)"""
+        n = len(list_of_single_requirement_indicator_expressions)
+        return all(not part_invalid(i) for i in range(n))
 
     def post_first_fulfilled_else_last(self, list_of_single_requirement_indicator_expressions, result):
         parts = list_of_single_requirement_indicator_expressions
@@ -94,6 +151,7 @@ class AhbExpressionAsync:
 @contract(AT + "requirement_indicator", prop=["C09"])
 class BareIndicator:
     """a bare indicator counts as fulfilled and unconditional, no hints, no format constraints"""
+    runtime_checkable = True
     params = dict(self=SELF, requirement_indicator=IND)
     raises = {}
 
